@@ -1,3 +1,4 @@
+import Sparrow.Proofs.KangInitRefine
 import Sparrow.Proofs.KangRecvRefine
 import Sparrow.Proofs.KangRefine
 import Sparrow.Proofs.KangFFEquiv
@@ -464,3 +465,20 @@ example : runSchedule 2 2 = [.init 0, .init 1, .formFactor 0, .formFactor 1, .ex
   decide
 
 end Sparrow.Props.C19.NonVacuous
+
+namespace Sparrow.Props.C19.InitRefine
+open Sparrow Sparrow.Generated.KangFn
+
+/-- **first-order refinement** for band `f < n_bins`, patch `j`, bin `t` inside the histogram: with the scene's `e0 j` / `bin0 j`
+    being the first-order energy and bin of the geometry, the regenerated text writes exactly the model's order-0 cell -/
+theorem initCell_refines_order0 (g : KangGeom) (thr99 thr11 : ℝ) (src normal size : Nat → ℝ) (power : ℝ) (n_bins f j t : Nat)
+    (hf : f < n_bins) (hj : j < g.P) (ht : t < g.S) (hn : AxisAligned (Vec3.ofFn normal) thr99)
+    (he0 : g.e0 j = kangInitPatch (Vec3.ofFn normal) (Vec3.ofFn (g.center j)) (Vec3.ofFn size) (Vec3.ofFn src) power
+      (g.absorption (g.wall j) f) (g.att (g.wall j) f) thr99 thr11)
+    (hb0 : g.bin0 j = binKang (Vec3.norm (Vec3.sub (Vec3.ofFn (g.center j)) (Vec3.ofFn src))) g.c g.fs) :
+    initCell (initEnergyExchangePatch thr99 thr11 src (g.center j) normal size power (fun b => g.absorption (g.wall j) b)
+        (fun b => g.att (g.wall j) b) n_bins g.c g.fs) f t =
+      some (orderH (g.scene f).toEx 0 j 0 t) :=
+  Sparrow.initCell_refines_order0 g thr99 thr11 src normal size power n_bins f j t hf hj ht hn he0 hb0
+
+end Sparrow.Props.C19.InitRefine
